@@ -15,6 +15,7 @@ LEVEL_TEXT = ("The Lean mirror of Resolver.glob (pattern translation to the thre
 LEVEL_NOTE = ("After the fix: commits for D4 ('..' dead end below '**' swallowed by an enclosing wildcard), D6 (identity de-dup) and D8 "
               "(ChildResolverError for an existing child when the rest of the pattern matched nothing). Trusted: Lean kernel, standard "
               "axioms; the mirror; CPython's re for the fragment '.*', '.', escaped literal with flags (?ms) and IGNORECASE on ASCII.")
+MODULES = ['Anytree.Props.C08', 'Anytree.Props.C08b']
 THEOREMS = [
     ("Anytree.Props.C08.match_iff_WMatch", "full"),
     ("Anytree.Props.C08.cacheInv_nil", "full"),
@@ -31,8 +32,16 @@ THEOREMS = [
     ("Anytree.Props.C08.denote_nodup", "full"),
     ("Anytree.Props.C08.denote_leading", "full"),
     ("Anytree.Props.C08.literalUnique_of_siblingUnique", "full"),
+    ("Anytree.Props.C08b.matchPure_eq_cmp", "full"),
+    ("Anytree.Props.C08b.literal_matches_itself", "full"),
+    ("Anytree.Props.C08b.cmp_trans", "full"),
+    ("Anytree.Props.C08b.globM_literal", "full"),
+    ("Anytree.Props.C08b.glob_eq_get", "full"),
+    ("Anytree.Props.C08b.glob_ok_of_get_ok", "full"),
+    ("Anytree.Props.C08b.glob_error_of_get_error", "full"),
+    ("Anytree.Props.C08b.get_of_glob", "full"),
 ]
-NOT_COVERED = ["strict mode returns the relaxed list (or raises) is proved for sibling-unique names - the scope the property gives strict mode (duplicates among siblings are quantified for relaxed mode only); with duplicate sibling names behind a wildcard strict glob can return a proper sub-list without raising (globStrict_ok_subset_denote is what holds then; witness r->[a->[b], a], pattern **/a/b); agreement of glob with get on wildcard-free paths is checked by the correspondence run, not proved"]
+NOT_COVERED = ['strict mode returns the relaxed list (or raises) is proved for sibling-unique names - the scope the property gives strict mode (duplicates among siblings are quantified for relaxed mode only); with duplicate sibling names behind a wildcard strict glob can return a proper sub-list without raising (globStrict_ok_subset_denote is what holds then; witness r->[a->[b], a], pattern **/a/b)']
 PREDICATE_SPEC = True
 RULE = ("shapes up to 5/6 nodes and random shapes up to 8/15 nodes, names from a pool with regex metacharacters, wildcards, quotes, "
         "backslashes, newline, non-ASCII, duplicates among siblings; patterns of up to 4/6 components over names, wildcards, '**', "
